@@ -57,7 +57,7 @@ func c08Case(c *hx.Ctx, r *hx.RNG, idx int64) {
 			case st.pi.IsNaN:
 				c.Violate("unexpected-ErrNaN", fmt.Sprintf("step %d %s: ErrNaN %q on operands %v; last steps: %v", i, d, st.pi.Text, operandStates(st), trace), st.kf)
 			default:
-				c.Violate("panic", fmt.Sprintf("step %d %s: %s panic %q at %s; operands %v; last steps: %v", i, d, st.pi.Class, st.pi.Text, st.pi.Stack, operandStates(st), trace), st.kf)
+				c.Violate("panic", fmt.Sprintf("step %d %s: %s panic %q at %s; operands %v; last steps: %v", i, d, st.pi.Class, st.pi.Text, st.pi.Stack, operandStates(st), trace), "")
 				return
 			}
 		}
